@@ -228,16 +228,16 @@ pub fn property() -> Property {
             prop_sub(
                 "sync_every_position",
                 "for each generated request (preamble + body with management noise) the AbortRequest (any body / padding) is placed after every one of its records in turn, with aborts for neighbouring ids sprinkled in; Params phase: exactly one EndRequest{RequestComplete,0} and the following preamble parses to its model; stream phase: delivered bytes are a prefix, parse() fails with AbortRequest on every further call without producing output, the abort record is retained at a record boundary and silently skipped by the next request parser; non-trivial = >= 3 abort positions in the case; distinct = hash of the case",
-                700,
-                40_000,
+                3_000,
+                60_000,
                 |_| sync_strategy(),
                 test_sync,
             ),
             prop_sub(
                 "async_connections",
                 "C07 connections in which 0..3 requests are aborted after a generated number of their records (during Params, inside / between / after their input streams), handlers reading / buffered-reading / not reading / already past end-of-stream, propagating errors or not, followed by 0..2 further requests; oracle = connection model + abort expectations; non-trivial = a handler got ConnectionAborted from an input operation and a later request was still served; distinct = hash of the case",
-                2_000,
-                80_000,
+                20_000,
+                600_000,
                 |_| async_strategy(),
                 test_async,
             ),
